@@ -86,8 +86,10 @@ void vp_destroyer()
 {
     size_t n = g_dd->destroyObjects();
     vp_assert(n == static_cast<size_t>(-1) || n <= 2, 1620);
+#ifndef LIGHT
     size_t s = g_dd->size();
     vp_assert(s <= 2, 1621);
+#endif
     vp_cover(1);
 }
 // external owner of object 2 (added by the setup or by this thread) dropping it at some point
@@ -123,6 +125,8 @@ void vp_final()
     delete d;                                                            // at the latest now everything handed over is destroyed
     g_dd = nullptr;
     vp_assert(vp_g(G_DEAD1) == vp_g(G_IN1) && vp_g(G_DEAD2) == vp_g(G_IN2), 1624);   // nothing lost, nothing destroyed twice (1604)
+#elif defined(LIGHT)
+    // (quick-tier variant: accounting only, no further pass)
 #else
     size_t l2 = g_dd->destroyObjects();                                  // all owners are gone: one pass reaps everything
     vp_assert(l2 == 0, 1626);
